@@ -96,8 +96,21 @@ package multiendpoint
 //@   loop 1 invariant top != nil ==> top.id in me.endpoints && me.endpoints[top.id] == top && $visited(top.id)
 //@   loop 1 invariant forall id, e in me.endpoints :: $visited(id) && e.status == available ==> topA != nil && topA.priority <= e.priority
 //@   loop 1 invariant forall id, e in me.endpoints :: $visited(id) ==> top != nil && top.priority <= e.priority
+// ---- pending delayed switches (C14 convergence, safety part): $pendSwitch[me] counts the scheduled, not yet fired
+// switch timers of me; while a strictly better endpoint is available than the (not unavailable) current one, a switch
+// to the best available endpoint is pending
+//@ ghost $pendSwitch map[*multiEndpoint]int
+//@ guards multiEndpoint.RWMutex: $pendSwitch
+//@ pred needSwitch(me *multiEndpoint) := me.switchingDelay != 0 && me.current in me.endpoints && me.endpoints[me.current].status != unavailable && (exists id, e in me.endpoints :: e.status == available && e.priority < me.endpoints[me.current].priority)
+//@ inv multiEndpoint.RWMutex M8 [C14 C15] := $pendSwitch[this] >= 0 && (needSwitch(this) ==> $pendSwitch[this] > 0 && bestAvail(this, this.future))
+//@ func (me *multiEndpoint) switchFromTo
+//@   inline
+//@   callsite timeAfterFunc#1 sets $pendSwitch := upd($pendSwitch, me, $pendSwitch[me] + 1)
 //@ func (me *multiEndpoint) switchFromTo$1
 //@   captures me != nil && me.switchingDelay != 0
+// a timer callback runs only after it was scheduled
+//@   onacquire assume $pendSwitch[me] > 0
+//@   onacquire $pendSwitch := upd($pendSwitch, me, $pendSwitch[me] - 1)
 //@   ensures [C13.sticky] c13Sticky(me)
 //@   ensures [C14.no-downgrade] c14NoDowngrade(me)
 //@   ensures [C13,C15,C16 members-kept] forall id string :: (id in me.endpoints) == old(id in me.endpoints)
@@ -116,9 +129,14 @@ package multiendpoint
 //@ func NewMultiEndpoint
 //@   requires b != nil
 //@   absmodifies $meHas
+// M8 for a new MultiEndpoint: nothing is available yet, and the ghost counter of an object that did not exist has no
+// scheduled timers (stated)
+//@   ensures [C14.new-no-switch] $ret1 == nil ==> !needSwitch($ret0.(*multiEndpoint))
+//@   absmodifies $pendSwitch
+//@   absensures [C14.new-no-timers] $ret1 == nil ==> $pendSwitch[$ret0.(*multiEndpoint)] == 0
 //@   absensures [C15,C16 abs-new] $ret1 == nil ==> $ret0 != nil && (forall e string :: {mekey($ret0, e)} $meHas[mekey($ret0, e)] == (exists j, x in b.Endpoints :: x == e))
 //@   absensures [C15,C16 abs-new-frame] forall m MultiEndpoint, e string :: {mekey(m, e)} m != $ret0 ==> $meHas[mekey(m, e)] == old($meHas)[mekey(m, e)]
 //@   ensures [C13.reject-empty] len(b.Endpoints) == 0 ==> $ret1 != nil
-//@   ensures [C13.new] len(b.Endpoints) > 0 ==> $ret1 == nil && $ret0 is *multiEndpoint && lockinv($ret0.(*multiEndpoint).RWMutex) && $ret0.(*multiEndpoint).current == b.Endpoints[0]
+//@   ensures [C13.new] len(b.Endpoints) > 0 ==> $ret1 == nil && $ret0 is *multiEndpoint && lockinv($ret0.(*multiEndpoint).RWMutex, "M0", "M1", "M2", "M4", "M5", "M6") && $ret0.(*multiEndpoint).current == b.Endpoints[0]
 //@   loop 1 invariant forall id, e in eMap :: e != nil && isa(e) && e.id == id && (e.status == recovering ==> me.recoveryTimeout != 0) && e.status != available
 //@   loop 1 invariant forall j, x in b.Endpoints :: j <= $i ==> x in eMap
